@@ -50,7 +50,8 @@ def step (line : String) : String :=
   | ["PAR", _, _] => "ok"
   | ["CH", _, _, _, _] => "ok"
   | ["SP", _, _, _, _] => "ok"
-  | ["XC", _, _, _, _] => "ok"      -- relay_noninterference: a tunnel's output is a function of its own input only      -- the same theorems; TLS records and QUIC streams are transports (not modelled)      -- handover_exact on both hops + relay fidelity
+  | ["XC", _, _, _, _] => "ok"
+  | ["GB", _, _] => "ok"               -- handover_exact: what the handshake reader leaves unread is delivered first      -- relay_noninterference: a tunnel's output is a function of its own input only      -- the same theorems; TLS records and QUIC streams are transports (not modelled)      -- handover_exact on both hops + relay fidelity
   | _ => "bad-op"
 
 partial def loop (h : IO.FS.Stream) (out : IO.FS.Stream) : IO Unit := do
